@@ -685,7 +685,7 @@ PROPS = {
     },
     "C02": {
         "module": "DnsModel.Theorems.C02",
-        "theorems": ["Dns.C02.name_ok_iff_valid"],
+        "theorems": ["Dns.C02.parse_ok_iff_wf", "Dns.C02.wf_accepted", "Dns.C02.accepted_wf", "Dns.C02.name_ok_iff_valid", "Dns.C02.plain_name_ok_iff"],
         "families": [
             {"name": "boundary-parse", "quick": 0, "thorough": 0, "fixed": True},
             {"name": "parse", "quick": 8000, "thorough": 400000},
@@ -693,8 +693,8 @@ PROPS = {
         ],
         "oracle": oracle_c02,
         "nontrivial": nontrivial_parse,
-        "rule": "as C01's parse stream; verdicts compared in both directions; non-trivial = distinct packets past the header checks",
-        "level": "other",
+        "rule": "as C01's parse stream plus name-checker cases; verdicts compared in both directions with the model and with the independent Python statement of the policy; non-trivial = distinct packets past the header checks",
+        "level": "proof",
         "explanation": "",
         "assumptions": [],
     },
@@ -710,7 +710,7 @@ MANIFEST_TEXT = {
     "C01": {"text": "Lean theorems: the model of parse(), of both name checkers and of every script of public cursor calls returns Ok or Err for all byte strings / offsets / increments (no panic, no fuel exhaustion), and a successful name check stays inside the buffer. " + CORR,
             "note": NOTE + " Termination of the real loops is inferred from the model's termination proof plus outcome and step-count agreement.",
             "technique": "Lean 4 proof (induction on fuel, cursor invariant) + model/implementation correspondence"},
-    "C02": {"text": "Executable model of the validator proved total; name-walker proved equivalent to the declarative name relation (checkCompressedName p off = ok e <-> exists labels, ValidName p off labels e). Verdicts of the real parser are compared in both directions with the model and with an independent executable statement of the policy (Python recogniser) on structured, single-point-damaged, boundary and arbitrary packets." + PENDING,
+    "C02": {"text": "Lean theorem for all byte strings: the model's parse succeeds if and only if the declarative policy WF holds (names by inductive relations with the strictly-backward / 16-pointer / no-root-target discipline, label and name limits, forbidden characters; pointer-free DNAME targets; per-type rdata shapes; root-named single OPT in the additional section with options tiling its data; QR gating; one IN question; nothing left over) - both directions, by induction on fuel / on derivations. Verdicts of the real parser are compared in both directions with the model and with an independent executable statement of the policy (Python recogniser) on structured, single-point-damaged, boundary (incl. re-entering names, pointer ladders) and arbitrary packets.",
             "note": NOTE, "technique": "Lean 4 proof of the name-walker iff + correspondence + independent recogniser"},
     "C03": {"text": "Model of the four iterators and all accessors; on every generated accepted packet the real walks/accessors, the model's and the reference decoder's RFC 1035 reading agree (OPT absent/first/middle/last, chained pointers, pointers into rdata)." + PENDING,
             "note": NOTE, "technique": "model/implementation correspondence + reference decoder oracle"},
